@@ -9,14 +9,14 @@ package ext
 //@ func (bigEndian).Uint16
 //@   safety[C02]
 //@   requires len(b) >= 2
-//@   ensures result == be16(mem(b), lo(b))
+//@   ensures[!C02] result == be16(mem(b), lo(b))
 
 //@ func (bigEndian).Uint32
 //@   safety[C02]
 //@   requires len(b) >= 4
-//@   ensures result == be32(mem(b), lo(b))
+//@   ensures[!C02] result == be32(mem(b), lo(b))
 
 //@ func (bigEndian).Uint64
 //@   safety[C02]
 //@   requires len(b) >= 8
-//@   ensures result == be64(mem(b), lo(b))
+//@   ensures[!C02] result == be64(mem(b), lo(b))
